@@ -138,10 +138,12 @@ class Group(SharedRegistryObject):
 
     def remove_units(self, *unit_names: str) -> None:
         """Remove units from group."""
-        for unit_name in unit_names:
-            self._unit_names.remove(unit_name)
-
-        self.invalidate_members()
+        try:
+            for unit_name in unit_names:
+                self._unit_names.remove(unit_name)
+        finally:
+            # also when one of the names is refused: the others are gone already
+            self.invalidate_members()
 
     def add_groups(self, *group_names: str) -> None:
         """Add groups to group."""
@@ -149,7 +151,7 @@ class Group(SharedRegistryObject):
         for group_name in group_names:
             grp = d[group_name]
 
-            if grp.is_used_group(self.name):
+            if group_name == self.name or grp.is_used_group(self.name):
                 raise ValueError(
                     "Cyclic relationship found between %s and %s"
                     % (self.name, group_name)
